@@ -15,11 +15,15 @@ package main
 // hand-written decoders (hashmaps, VmStack, messages, transactions, blocks).
 
 import (
+	"bufio"
 	"bytes"
+	"context"
+	"crypto/ed25519"
 	"encoding/binary"
 	"encoding/json"
 	"fmt"
 	"math/big"
+	"net"
 	"os"
 	"path/filepath"
 	"reflect"
@@ -28,6 +32,7 @@ import (
 	"sort"
 	"strconv"
 	"strings"
+	"sync"
 	"time"
 	"unsafe"
 
@@ -50,6 +55,7 @@ func init() {
 	execs["c08.answer"] = execC08Answer
 	execs["c08.answer2"] = execC08Answer2
 	execs["c08.mapint"] = execC08MapInt
+	execs["c08.reader"] = execC08Reader
 	execs["c08.packet"] = execC08Packet
 	execs["c08.vmstack"] = execC08Vmstack
 	execs["c08.methods"] = execC08Methods
@@ -343,6 +349,8 @@ func (d *c08Desc) sx() sx.V {
 		return sx.A(d.K)
 	case "bintree":
 		return sx.L(sx.A("bintree"), sx.N(d.Val), d.Sub[0].sx())
+	case "peek":
+		return sx.L(sx.A("peek"), sx.Nat(d.W), d.Sub[0].sx(), d.Sub[1].sx())
 	case "hm":
 		return sx.L(sx.A("hm"), sx.Nat(d.W), sx.N(d.Val), d.Sub[0].sx())
 	case "hmaug":
@@ -647,6 +655,44 @@ func c08DeriveInner(t reflect.Type, tag string) *c08Desc {
 				return nil
 			}
 			return &c08Desc{K: "hashed", Sub: []*c08Desc{body}}
+		case n == "BlockInfo":
+			// block_info#9bc7a987: four flag bits of the fixed part (read before anything
+			// else) select the optional fields; offsets are from the start of the tag
+			part := c08Derive(reflect.TypeOf(tlb.BlockInfoPart{}), "")
+			gv := c08Derive(reflect.TypeOf(tlb.GlobalVersion{}), "")
+			mi := c08DeriveStart(reflect.TypeOf(tlb.BlkMasterInfo{}), "", true)
+			ext := c08DeriveStart(reflect.TypeOf(tlb.ExtBlkRef{}), "", true)
+			if part == nil || gv == nil || mi == nil || ext == nil {
+				return nil
+			}
+			refraw := func(x *c08Desc) *c08Desc { return &c08Desc{K: "refraw", Sub: []*c08Desc{x}} }
+			// BlkPrevInfo.UnmarshalTLB is called directly on the referenced cell (no library check on it)
+			prev := func(merge bool) *c08Desc {
+				if merge {
+					return refraw(&c08Desc{K: "ostruct", Sub: []*c08Desc{refraw(ext), refraw(ext)}})
+				}
+				return refraw(&c08Desc{K: "ostruct", Sub: []*c08Desc{ext}})
+			}
+			layout := func(notMaster, afterMerge, vert, flag0 bool) *c08Desc {
+				st := &c08Desc{K: "struct", Sub: []*c08Desc{{K: "magic", W: 32, Val: 0x9bc7a987}, part}}
+				if flag0 {
+					st.Sub = append(st.Sub, gv)
+				}
+				if notMaster {
+					st.Sub = append(st.Sub, refraw(mi))
+				}
+				st.Sub = append(st.Sub, prev(afterMerge))
+				if vert {
+					st.Sub = append(st.Sub, prev(false))
+				}
+				return st
+			}
+			peek := func(off int, a, b *c08Desc) *c08Desc { return &c08Desc{K: "peek", W: off, Sub: []*c08Desc{a, b}} }
+			// tag 0..31, version 32..63, not_master 64, after_merge 65, ..., vert_seqno_incr 71, flags 72..79
+			f0 := func(nm, am, v bool) *c08Desc { return peek(79, layout(nm, am, v, false), layout(nm, am, v, true)) }
+			fv := func(nm, am bool) *c08Desc { return peek(71, f0(nm, am, false), f0(nm, am, true)) }
+			fa := func(nm bool) *c08Desc { return peek(65, fv(nm, false), fv(nm, true)) }
+			return peek(64, fa(false), fa(true))
 		case n == "AccountStatus":
 			return &c08Desc{K: "u", W: 2}
 		case n == "AccStatusChange": // acst_unchanged$0 acst_frozen$10 acst_deleted$11
@@ -857,6 +903,8 @@ var c08TlbTypes = []reflect.Type{
 	reflect.TypeOf(tlb.Grams(0)), reflect.TypeOf(tlb.VarUInteger32{}), reflect.TypeOf(tlb.SnakeData{}), reflect.TypeOf(tlb.Text("")),
 	reflect.TypeOf(tlb.Bytes{}), reflect.TypeOf(tlb.FixedLengthText("")), reflect.TypeOf(tlb.VmCont{}), reflect.TypeOf(tlb.VmStkTuple{}),
 	reflect.TypeOf(tlb.VarUInteger16{}), reflect.TypeOf(tlb.VmCellSlice{}),
+	reflect.TypeOf(tlb.BlockHeader{}), reflect.TypeOf(tlb.MerkleProof[tlb.BlockHeader]{}), reflect.TypeOf(tlb.GlobalVersion{}),
+	reflect.TypeOf(tlb.BlkMasterInfo{}), reflect.TypeOf(tlb.ExtBlkRef{}), reflect.TypeOf(tlb.ShardIdent{}),
 }
 
 // a cell tree as data
@@ -1023,6 +1071,22 @@ func c08GenValid(r *prng.R, d *c08Desc, t *c08Tree, depth int) {
 		sub(d.Sub[0])
 	case "hashed", "nolib":
 		c08GenValid(r, d.Sub[0], t, depth)
+	case "ostruct":
+		for _, s := range d.Sub {
+			c08GenValid(r, s, t, depth)
+		}
+	case "peek":
+		// generate the chosen continuation, then make the flag bit agree with it
+		p0 := len(t.Bits)
+		b := r.Bool()
+		if b {
+			c08GenValid(r, d.Sub[1], t, depth)
+		} else {
+			c08GenValid(r, d.Sub[0], t, depth)
+		}
+		if p0+d.W < len(t.Bits) {
+			t.Bits[p0+d.W] = b
+		}
 	case "mref":
 		if r.Bool() {
 			t.Bits = append(t.Bits, true)
@@ -2171,6 +2235,112 @@ func execC08MapInt(in sx.V) sx.V {
 	return sx.A("ok")
 }
 
+// ---- the goroutines behind ParsePacket, driven with framed packets over net.Pipe
+
+var c08QuietOnce sync.Once
+
+// the readers print diagnostics with fmt.Printf; the child's stdout is the protocol stream
+func c08Quiet() {
+	c08QuietOnce.Do(func() {
+		if null, err := os.OpenFile(os.DevNull, os.O_WRONLY, 0); err == nil {
+			os.Stdout = null
+		}
+	})
+}
+
+func c08Frame(payload []byte) []byte {
+	p, _ := liteclient.NewPacket(append([]byte{}, payload...))
+	return liteclient.VerifMarshalPacket(p)
+}
+
+// c08.reader: ('conn|'client|'auth payload).  The process dies when a reader goroutine
+// panics: run in the guarded child only.
+func execC08Reader(in sx.V) sx.V {
+	c08Quiet()
+	mode, payload := in.List[0].Atom, in.List[1].Bytes
+	cl, sv := net.Pipe()
+	defer cl.Close()
+	defer sv.Close()
+	sentinel := append([]byte{0x5e, 0x17, 0x1e, 0x01}, []byte("c08 sentinel")...)
+	watchdog := time.After(5 * time.Second)
+	switch mode {
+	case "conn":
+		conn := liteclient.VerifNewConnection(cl, c08Identity{}, c08Identity{})
+		go func() {
+			_, _ = sv.Write(c08Frame(payload))
+			_, _ = sv.Write(c08Frame(sentinel))
+		}()
+		forwarded := false
+		for {
+			select {
+			case p := <-conn.Responses():
+				if bytes.Equal(p.Payload, sentinel) {
+					if forwarded {
+						return sx.A("forward")
+					}
+					return sx.A("consumed")
+				}
+				forwarded = true
+			case <-watchdog:
+				return sx.A("stuck")
+			}
+		}
+	case "client":
+		conn := liteclient.VerifNewConnection(cl, c08Identity{}, c08Identity{})
+		client := liteclient.VerifNewClient([]*liteclient.Connection{conn}, 4*time.Second)
+		// the server: the test packet first, then it answers the client's query
+		go func() {
+			_, _ = sv.Write(c08Frame(payload))
+			rd := bufio.NewReader(sv)
+			for {
+				p, err := liteclient.ParsePacket(rd, c08Identity{})
+				if err != nil {
+					return
+				}
+				if len(p.Payload) >= 36 {
+					ans := []byte{0x16, 0x84, 0xac, 0x0f}
+					ans = append(ans, p.Payload[4:36]...)
+					ans = append(ans, 4, 'p', 'o', 'n', 'g', 0, 0, 0)
+					_, _ = sv.Write(c08Frame(ans))
+				}
+			}
+		}()
+		done := make(chan error, 1)
+		go func() { _, err := client.Request(context.Background(), []byte("ping")); done <- err }()
+		select {
+		case err := <-done:
+			if err != nil {
+				return sx.A("dead")
+			}
+			return sx.A("alive")
+		case <-watchdog:
+			return sx.A("stuck")
+		}
+	default: // "auth"
+		_, key, _ := ed25519.GenerateKey(nil)
+		_, res := liteclient.VerifNewConnectionAuth(cl, c08Identity{}, c08Identity{}, key, bytes.Repeat([]byte{7}, 32))
+		go func() {
+			_, _ = sv.Write(c08Frame(payload))
+			// drain what the client sends (tcp.authentificationComplete)
+			buf := make([]byte, 4096)
+			for {
+				if _, err := sv.Read(buf); err != nil {
+					return
+				}
+			}
+		}()
+		select {
+		case err := <-res:
+			if err != nil {
+				return sx.A("autherr")
+			}
+			return sx.A("authok")
+		case <-watchdog:
+			return sx.A("other")
+		}
+	}
+}
+
 type c08Identity struct{}
 
 func (c08Identity) XORKeyStream(dst, src []byte) { copy(dst, src) }
@@ -2362,7 +2532,7 @@ func genC08Resolver(c *Ctx) {
 		// model for descriptors that never call decode() in the middle of a cell's bits
 		// (plain structs of fixed-width kinds) and run under the hang / panic oracle for the rest
 		plain := !d.hasKind("sum", "maybe", "either", "eref", "ref", "mref", "refraw", "var", "unary", "magic", "any", "cell", "addr",
-			"grams", "snake", "bytes", "text", "ftext", "hm", "hmaug", "bintree", "vmstack", "vmvalue", "vmtuple", "cslice", "fail", "rawcell", "hashed")
+			"grams", "snake", "bytes", "text", "ftext", "hm", "hmaug", "bintree", "vmstack", "vmvalue", "vmtuple", "cslice", "fail", "rawcell", "hashed", "peek", "ostruct", "nolib")
 		run := func(tree *c08Tree, pairs [][2]*c08Tree, class string) {
 			if !tree.fits() || hung[name] >= 2 || len(hung) >= 3 {
 				return
@@ -2429,6 +2599,55 @@ func genC08Resolver(c *Ctx) {
 			}
 		}
 		_ = ti
+	}
+}
+
+// framed packets of every payload length 0..16 (and the ADNL answer sizes) for every
+// recognised constructor id, through Connection.reader, Client.reader behind it, and
+// Connection.reader while authenticating
+func genC08Readers(c *Ctx) {
+	r := c.R.Fork(9700)
+	magics := []uint32{0x4d082b9a, 0xdc69fb03, 0x445bab12, 0xe35d4ab6, 0xf7ad9ea6, 0x4813b4c6, 0xb48bf97a, 0x0fac8416, 0x798c06df, 0xbaeab892, 0, uint32(r.U64())}
+	lens := []int{0, 1, 2, 3, 4, 5, 6, 7, 8, 9, 10, 11, 12, 13, 14, 15, 16, 35, 36, 37, 38, 40, 41, 100, 300, 600}
+	emit := func(mode string, p []byte) {
+		in := sx.L(sx.A(mode), sx.Bytes(p))
+		out := c.EmitGuarded("c08.reader", in, "reader-"+mode+"|"+strconv.Itoa(min(len(p), 17)))
+		if o := out.String(); strings.Contains(o, "'crash") || strings.Contains(o, "'panic") || strings.Contains(o, "'timeout") || strings.Contains(o, "'stuck") || strings.Contains(o, "'dead") {
+			c.Fail("c08.reader", in, "reader-"+mode, "a framed packet kills or blocks the reader goroutine: "+o)
+		}
+	}
+	for mi, m := range magics {
+		for _, n := range lens {
+			if n > 16 && c.Tier != "thorough" && mi%2 == 1 && m != 0x0fac8416 && m != 0xe35d4ab6 {
+				continue
+			}
+			p := make([]byte, 4)
+			binary.LittleEndian.PutUint32(p, m)
+			if n < 4 {
+				p = p[:n]
+			} else {
+				body := r.Bytes(n - 4)
+				if n > 36 && r.Chance(70) {
+					// a length prefix that fits what follows
+					body[32] = byte(r.Pick([]int{0, 1, n - 37, n - 36, 253, 254, 255}))
+				}
+				p = append(p, body...)
+			}
+			emit("conn", p)
+			emit("client", p)
+			if m == 0xe35d4ab6 && n >= 4 {
+				emit("auth", p)
+			}
+		}
+	}
+	// well-formed server nonces of several sizes
+	for _, k := range []int{0, 1, 32, 253, 254, 512, 513} {
+		q := append([]byte{0xb6, 0x4a, 0x5d, 0xe3}, tl.EncodeLength(k)...)
+		q = append(q, r.Bytes(k)...)
+		for len(q) < 37 {
+			q = append(q, 0)
+		}
+		emit("auth", q)
 	}
 }
 
@@ -2563,6 +2782,7 @@ func min(a, b int) int {
 func genC08(c *Ctx) {
 	genC08Directed(c) // first: the smallest witnesses are reported before the per-type cap is reached
 	genC08MapInt(c)
+	genC08Readers(c)
 	genC08Resolver(c)
 	genC08TL(c)
 	genC08TLB(c)
